@@ -66,7 +66,7 @@ def bytes_to_blocks(
     # args
     found_varnames = ToArgs(varnames, {i: i for i in range(len(args.parameters))})
     found_cellvars = ToArgs(cellvars)
-    found_constants = ToArgs(constants)
+    found_constants = ToArgs(constants, _hash_fn=constant_key)
 
     # If we have a function block and a docstring, the first constant is the docstring.
     if isinstance(block_type, Function) and block_type.docstring is not None:
@@ -400,12 +400,26 @@ class ToArgs(Generic[T]):
     # Mapping of the actual index argument to the position it was
     # found
     _index_to_order: dict[int, int] = field(default_factory=dict)
+    # Same key function as the FromArgs which will rebuild these args
+    _hash_fn: Callable[[T], Hashable] = field(default=hash)
+    # Mapping from the key of each found arg to the first index it was found at
+    _key_to_index: dict[Hashable, int] = field(default_factory=dict)
+    # The keys which were found at more than one index
+    _duplicate_keys: set[Hashable] = field(default_factory=set)
 
     def found_index(self, index: int) -> tuple[T, Optional[int]]:
+        arg = self._args[index]
+        key = self._hash_fn(arg)
         if index not in self._index_to_order:
-            self._index_to_order[index] = len(self._args)
-        wrong_position = self._index_to_order[index] != index
-        return self._args[index], index if wrong_position else None
+            self._index_to_order[index] = len(self._index_to_order)
+            if self._key_to_index.setdefault(key, index) != index:
+                self._duplicate_keys.add(key)
+        # The index is only needed if it is not the position the arg was found at, or
+        # if the same arg is also at another index, so we cannot look it up by value
+        wrong_position = (
+            self._index_to_order[index] != index or key in self._duplicate_keys
+        )
+        return arg, index if wrong_position else None
 
     def __len__(self) -> int:
         return len(self._args)
